@@ -7,7 +7,8 @@ from engine import slicer
 from engine.core import Job, VERIF
 from engine.routeb import gotocc_cpp, cbmc_argv, STD, unwindset_from_loops
 
-FUNCS = {"RecomputeNodeDirty": r'bool\s+DependencyScan::RecomputeNodeDirty\s*\(', "VerifyDAG": r'bool\s+DependencyScan::VerifyDAG\s*\('}
+FUNCS = {"RecomputeNodeDirty": r'bool\s+DependencyScan::RecomputeNodeDirty\s*\(', "VerifyDAG": r'bool\s+DependencyScan::VerifyDAG\s*\(',
+         "RecomputeEdgesInputsDirty": r'bool\s+DependencyScan::RecomputeEdgesInputsDirty\s*\('}
 
 
 def check_shadow():
@@ -53,10 +54,15 @@ bool Node::Stat(DiskInterface* disk_interface, std::string* err) {
   exists_ = (r != 0) ? ExistenceStatusExists : ExistenceStatusMissing;
   return true;
 }
-struct EdgeInputsRange {                       /* graph.h: a view of a sub-range of edge->inputs_; opaque here (only passed on) */
+struct EdgeInputsRange {                       /* graph.h: a view of a sub-range of edge->inputs_ (same members; vf_which is a ghost tag) */
+  typedef std::vector<Node*>::iterator const_iterator;
   Edge* edge_; int vf_which;                  /* vf_which: 0 = all declared inputs, 1 = the range LoadDeps returned */
-  EdgeInputsRange(Edge* edge) : edge_(edge), vf_which(0) {}
-  EdgeInputsRange(Edge* edge, int which) : edge_(edge), vf_which(which) {}
+  const_iterator beg_, end_;
+  EdgeInputsRange(Edge* edge) : edge_(edge), vf_which(0), beg_(edge->inputs_.begin()), end_(edge->inputs_.end()) {}
+  EdgeInputsRange(Edge* edge, int which) : edge_(edge), vf_which(which), beg_(edge->inputs_.begin()), end_(edge->inputs_.end()) {}
+  EdgeInputsRange(Edge* edge, const_iterator b, const_iterator e) : edge_(edge), vf_which(2), beg_(b), end_(e) {}
+  const_iterator begin() const { return beg_; }
+  const_iterator end() const { return end_; }
 };
 template <class T> struct vf_optional {        /* std::optional<T>: has_value / value / operator! */
   bool has_; T val_;
@@ -135,6 +141,14 @@ def unit_text(real, mutant=None, rec=()):
     # the brace-less form `for (auto o : outs)\n  o->MarkDirty();` became `for (...) (*vf_it_o)->` + `o->MarkDirty();` : drop the now duplicated receiver
     body, n7b = re.subn(r'\(\*vf_it_(\w+)\)->\s*\1->', r'(*vf_it_\1)->', body)
     body, n10 = re.subn(r'\bassert\(([^;]*?)\s*&&\s*"[^"]*"\)', r'assert(\1)', body)
+    # RecomputeEdgesInputsDirty: `const auto& edge = input_range.edge_;` (auto), range-for over the view, `auto i = ...begin()`, declaration in a condition (L27), cbegin()
+    body = body.replace("const auto& edge = input_range.edge_;", "Edge* const& edge = input_range.edge_;")
+    body, n7c = re.subn(r'for\s*\(\s*auto\s+(\w+)\s*:\s*input_range\s*\)\s*\{',
+                        r'for (EdgeInputsRange::const_iterator vf_it_\1 = input_range.begin(); vf_it_\1 != input_range.end(); ++vf_it_\1) { Node* \1 = *vf_it_\1;', body)
+    body = body.replace("for (auto i = input_range.begin();", "for (EdgeInputsRange::const_iterator i = input_range.begin();")
+    body, n27 = re.subn(r'\bif\s*\(\s*(\w+)\s*\*\s*(\w+)\s*=\s*([^;{}]+?)\)\s*\{', r'\1* \2 = \3; if (\2) {', body)
+    body = body.replace("edge->inputs_.cbegin()", "edge->inputs_.begin()")
+    body = body.replace("EdgeInputsRange::const_iterator", "std::vector<Node*>::iterator")
     body, ne = re.subn(r'explanations_\.Record\(', 'explanations_.Record(', body)
     body = body.replace("std::optional<", "vf_optional<")
     counts = {"L7": n7, "L10": n10, "R1": nrec}
